@@ -4,6 +4,7 @@ package main
 
 import (
 	"fmt"
+	"os"
 	"go/ast"
 	"go/types"
 	"runtime/debug"
@@ -56,6 +57,9 @@ func (e *Engine) verifyFunc(key string) (res *FuncResult) {
 		if r := recover(); r != nil {
 			if ee, ok := r.(*EngineError); ok {
 				res.Err = ee.Msg
+				if os.Getenv("GOCV_TRACE") != "" {
+					res.Err += "\n" + string(debug.Stack())
+				}
 			} else {
 				res.Err = fmt.Sprintf("internal error: %v\n%s", r, debug.Stack())
 			}
